@@ -21,6 +21,10 @@ pub enum OutFail {
     Zero,
     /// `Err(..)`
     Err,
+    /// `Err(ErrorKind::Interrupted)`: the refusal an `io` convenience wrapper (`write_all`, `read_exact`)
+    /// would silently retry. After four interrupted answers the object answers normally again, so an
+    /// implementation that retries shows up as later events in the log instead of hanging.
+    Interrupted,
 }
 
 pub struct Env {
@@ -33,6 +37,8 @@ pub struct Env {
     pub cap: usize,
     pub log: Vec<Act>,
     pub in_used: usize,
+    /// interrupted answers still to give (see `OutFail::Interrupted`)
+    pub interrupts_left: u32,
     /// number of read calls that were not for exactly one byte (never expected)
     pub odd_calls: usize,
 }
@@ -48,6 +54,7 @@ impl Env {
             cap,
             log: Vec::with_capacity(cap.min(1 << 16) + 8),
             in_used: 0,
+            interrupts_left: 4,
             odd_calls: 0,
         }))
     }
@@ -80,8 +87,15 @@ impl Read for EnvReader {
                 return Ok(0);
             }
         }
-        let fail = e.failing();
+        let mut fail = e.failing();
         e.push(Act::In);
+        if fail && e.out_fail == OutFail::Interrupted && e.log.len() <= e.cap {
+            if e.interrupts_left > 0 {
+                e.interrupts_left -= 1;
+                return Err(io::ErrorKind::Interrupted.into());
+            }
+            fail = false;
+        }
         if fail {
             return Err(io::ErrorKind::Other.into());
         }
@@ -111,6 +125,12 @@ impl Write for EnvWriter {
             return match e.out_fail {
                 OutFail::Zero => Ok(0),
                 OutFail::Err => Err(io::ErrorKind::Other.into()),
+                OutFail::Interrupted if e.log.len() > e.cap => Err(io::ErrorKind::Other.into()),
+                OutFail::Interrupted if e.interrupts_left > 0 => {
+                    e.interrupts_left -= 1;
+                    Err(io::ErrorKind::Interrupted.into())
+                }
+                OutFail::Interrupted => Ok(1),
             };
         }
         Ok(1)
